@@ -191,10 +191,10 @@ def inputs(tier, seed):
     items = []
     if tier == "quick":
         plain = list(D.plain_inputs(range(1, 4), range(1, 4)))
-        plain += [D.random_plain_input(rng, 4, rng.randint(2, 4)) for _ in range(30)]
-        nlab, sizes, fams = 60, [(3, 2), (3, 3), (4, 3)], "abc"
-        bounds = {"plain": "exhaustive object leaves 1-3 x species leaves 1-3 + 30 seeded 4-leaf inputs, every valid mapping",
-                  "labelled": "60 seeded inputs (3-4 object leaves, 2-3 species leaves, 3 families), every valid mapping (cap 40) x "
+        plain += [D.random_plain_input(rng, 4, rng.randint(2, 4)) for _ in range(120)] + [D.random_plain_input(rng, 5, rng.randint(3, 5)) for _ in range(30)]
+        nlab, sizes, fams = 400, [(3, 2), (3, 3), (4, 3), (4, 4)], "abcd"
+        bounds = {"plain": "exhaustive object leaves 1-3 x species leaves 1-3 + 120 seeded 4-leaf and 30 seeded 5-leaf inputs, every valid mapping",
+                  "labelled": "400 seeded inputs (3-4 object leaves, 2-4 species leaves, 2-4 families), every valid mapping (cap 40) x "
                               "every unordered and ordered labelling (cap 60 each, seeded sample above)"}
     else:
         plain = list(D.plain_inputs(range(1, 5), range(1, 5)))
